@@ -83,6 +83,21 @@ def scenarios(ctx):
             for j, arr in enumerate(interleavings(rnd, ex, 25 if q else 200)):
                 out.append(streams.scn_from_exchange("%s.il%d" % (name, j), ex, arr, {"ids": 1, "autod": j % 2, "freed": j % 2}))
             out.append(streams.scn_from_exchange(name + ".byte", ex, streams.recut([(">", ex["q"]), ("<", ex["s"])], "byte"), {"ids": 1}))
+            for label, arr in streams.structural_interleavings(ex, rnd, 30 if q else 300):
+                out.append(streams.scn_from_exchange("%s.%s" % (name, label), ex, arr, {"ids": 1}))
+            # the edge of the pipelining indicator: k bytes of request i+1 have arrived when response i begins (k = 0: not pipelined; k >= 1: the
+            # request was started first), and j bytes of response i have arrived when request i+1 begins (j >= 1: not pipelined)
+            if n >= 2:
+                qb = [0] + [sum(len(m) for m in ex["qmsgs"][:i + 1]) for i in range(n)]
+                sb = [0] + [sum(len(m) for m in ex["smsgs"][:i + 1]) for i in range(n)]
+                i = n - 2            # the pairs before the last two are delivered serially, so that nothing else on the connection is pipelined
+                serial = [x for t in range(i) for x in ((">", ex["qmsgs"][t]), ("<", ex["smsgs"][t]))]
+                for kk in (0, 1, 2, 7, len(ex["qmsgs"][i + 1]) - 1):
+                    arr = serial + [(">", ex["q"][qb[i]:qb[i + 1] + kk]), ("<", ex["smsgs"][i]), (">", ex["q"][qb[i + 1] + kk:]), ("<", ex["smsgs"][i + 1])]
+                    out.append(streams.scn_from_exchange("%s.pe%d.k%d" % (name, i, kk), ex, [(d, v) for d, v in arr if v], {"ids": 1}))
+                for jj in (1, 2, 9):
+                    arr = serial + [(">", ex["qmsgs"][i]), ("<", ex["smsgs"][i][:jj]), (">", ex["qmsgs"][i + 1]), ("<", ex["smsgs"][i][jj:] + ex["smsgs"][i + 1])]
+                    out.append(streams.scn_from_exchange("%s.pe%d.j%d" % (name, i, jj), ex, arr, {"ids": 1}))
     # the exchange library incl. CONNECT hand-over (ids only where every message carries one)
     out += gens.exchanges(ctx.seed, q, names=["get3", "pipe3", "post_head", "connect_404", "get_connect_get"], maxcuts=25 if q else None)
     return out
